@@ -2,6 +2,7 @@ import OtelVerif.Common.Line
 import OtelVerif.Model.C01
 import OtelVerif.Model.C01Err
 import OtelVerif.Model.C01Classify
+import OtelVerif.Model.C01Bytes
 import OtelVerif.Model.C01Trace
 import OtelVerif.Model.C01Codec
 /-! driver for C01: models `c01-pq` (queue machine with deaths) and `c01-codec` (index byte codecs) -/
@@ -88,6 +89,7 @@ structure DS where
   errLoss : Option String := Option.none     -- first such request actually lost on the implementation
   hi : Nat := 0                              -- keys below `hi` are dumped (largest write index seen + 2)
   errInjected : Bool := false                -- some storage call of this case was made to return an error (extension)
+  bytesBad : Option String := Option.none    -- raw storage bytes decoded by Model/C01Bytes differ from the model's store
   classBad : Option String := Option.none    -- an error tree whose classification by the Lean model differs from the script
 
 def DS.c (s : DS) : Cfg := s.ce.base
@@ -151,9 +153,43 @@ def pqOnOp (s : DS) (toks : List String) : DS × List String :=
     | Option.none => (s, ["obs bad-op"])
   | _ => (s, ["obs bad-op"])
 
+/-- the harness encoding of a request body: 8 bytes little endian of `id*16 + size` -/
+def harnessDec (b : Bytes) : Option Req :=
+  if b.length = 8 then some ⟨Codec.leVal b / 16, Codec.leVal b % 16⟩ else Option.none
+
+/-- `tr raw <hex key>=<hex value> …`: the raw storage map of the implementation -/
+def parseRaw (toks : List String) : Option (List (String × Bytes)) :=
+  toks.mapM (fun t =>
+    match t.splitOn "=" with
+    | [k, v] => match unhex k, unhexBytes v with
+      | some k, some v => some (k, v)
+      | _, _ => Option.none
+    | _ => Option.none)
+
+/-- decode the implementation's bytes the way start-up / dequeue do (`readIndexes`, `readDi`, `readItemWith` of
+    `Model/C01Bytes.lean`, the subjects of `C01_bytes_refine`) and compare with the model's abstract store -/
+def checkRaw (s : DS) (kvs : List (String × Bytes)) : Option String :=
+  let b := ByteStore.ofList kvs
+  let st := s.c.st
+  if readIndexes b != (st.R, st.W) then some s!"indexes decoded={(readIndexes b)} model=({st.R},{st.W})"
+  else if readDi b != st.di then some s!"di decoded={readDi b} model={st.di}"
+  else match (List.range (max s.hi (st.W + 2))).find? (fun i => readItemWith harnessDec b i != st.items i) with
+    | some i => some s!"item {i} differs"
+    | Option.none =>
+      -- no key outside the four names and the decimal item keys
+      match kvs.find? (fun p => !(p.1 == "ri" || p.1 == "wi" || p.1 == "si" || p.1 == "di") &&
+                               !(p.1.toNat?.map (fun i => itemKey i == p.1)).getD false) with
+      | some p => some s!"unexpected key {p.1}"
+      | Option.none => Option.none
+
 /-- the search oracle: consumes the IMPLEMENTATION's observation of the last op -/
 def pqOnObs (s : DS) (toks : List String) : DS :=
   match toks with
+  | "tr" :: "raw" :: rest =>
+    match s.bytesBad, parseRaw rest with
+    | some _, _ => s
+    | Option.none, some kvs => { s with bytesBad := checkRaw s kvs }
+    | Option.none, Option.none => { s with bytesBad := some "unparsable raw dump" }
   | ["tr", "errtree", shape] =>
     -- the error tree the harness hands to OnDone for the `done` op just read: `outcomeOf` must agree with its `oc`
     let want : Option Outcome := match kv s.lastOp "oc" with
@@ -216,6 +252,9 @@ def pqOnEnd (s : DS) : List String :=
   if s.corrupted then [] else   -- the property is not claimed when storage contents vanish; differential only
   -- storage calls that return an error are outside the property's quantifier (it speaks of process deaths): such
   -- cases are an extension tied by the exact differential only; the property oracles judge error-free scripts
+  (match s.bytesBad with
+   | some d => [s!"prop bytes=FAIL sig=C01/bytes/decoded-store-differs-from-model {d}"]
+   | Option.none => []) ++
   (match s.classBad with
    | some sh => [s!"prop classify=FAIL sig=C01/classify/model-tree-classification-disagrees shape={sh}"]
    | Option.none => []) ++
